@@ -38,6 +38,7 @@ var commands = map[string]func([]string){
 	"validity":   cmdValidity,
 	"cfgdoc":     cmdCfgDoc,
 	"cover":      cmdCover,
+	"flagcensus": cmdFlagCensus,
 }
 
 func main() {
